@@ -546,3 +546,50 @@ def features_layer(env):
 
 
 reg("C19", lambda env: [features_layer(env)], ["the digest equality is differential; each build's results are pinned to the oracles by the other checks, which run the std build"])
+
+
+# ------------------------------------------------------------------------------------------------
+# C10: record with tz-rs, replay against CPython zoneinfo and glibc
+
+def c10_layer(env):
+    @layer("record+replay")
+    def f():
+        evdir = os.path.join(env.work, "c10-events-%d" % os.getpid())
+        shutil.rmtree(evdir, ignore_errors=True)
+        os.makedirs(evdir)
+        refout = os.path.join(env.work, "c10-ref-%d.json" % os.getpid())
+        try:
+            doc = run_tzmon(env, profile="release", opts={"events": evdir}, name="record+replay", counts_distinct=True)
+            py = shutil.which("python3") or sys.executable
+            rc, out, err, wall = run([py, os.path.join(env.here, "ref", "ref_check.py"), evdir, os.path.join(env.corpus, "zoneinfo", "blobs"), refout, str(env.threads)], timeout=3000)
+            if rc != 0 or not os.path.exists(refout):
+                raise LayerInconclusive("reference checker failed: %s" % err.strip()[-400:])
+            with open(refout) as fh:
+                ref = json.load(fh)
+        finally:
+            shutil.rmtree(evdir, ignore_errors=True)
+            if os.path.exists(refout):
+                os.unlink(refout)
+        for d in ref.get("disagreements", [])[:10]:
+            ev = d.get("event", {})
+            inp = json.dumps(ev, sort_keys=True)[:600]
+            doc["violations"].append(viol("end-to-end: " + d.get("what", "disagreement with a reference implementation"), inp, json.dumps(d.get("reference"))[:300], "tz-rs: see event", env.seed))
+        doc["violations_total"] = int(doc.get("violations_total", 0)) + int(ref.get("disagreements_total", 0))
+        classes = dict(doc.get("classes", {}))
+        classes.update(ref.get("classes", {}))
+        for k in ("fwd_vs_zoneinfo", "fwd_vs_glibc_posix", "fwd_vs_glibc_right", "find_vs_zoneinfo", "find_vs_glibc", "mktime_membership", "str_vs_glibc", "skipped_out_of_python_range", "skipped_glibc_range"):
+            classes["compared/" + k] = ref.get(k, 0)
+        doc["classes"] = classes
+        need = ["posix_vs_zoneinfo", "posix_vs_glibc", "right_vs_glibc", "footer_governed_future", "fold", "gap", "negative_dst_zone", "file_version_3", "compared/str_vs_glibc", "compared/find_vs_glibc"]
+        missing = [k for k in need if not classes.get(k)]
+        if missing:
+            doc.setdefault("inconclusive", []).append("required coverage classes with zero observations: %s" % ",".join(missing))
+        if int(ref.get("events", 0)) != int(doc.get("evaluations", -1)):
+            doc.setdefault("inconclusive", []).append("the replayer saw %s events but %s were recorded" % (ref.get("events"), doc.get("evaluations")))
+        doc["extra"] = {"references": ref.get("references"), "replay_wall_s": ref.get("wall_s"), "parts": ref.get("parts")}
+        doc["replay_spec"] = None
+        return doc
+    return f
+
+
+reg("C10", lambda env: [c10_layer(env)], ["CPython's zoneinfo and glibc 2.36 are the oracles; leap-second instants themselves are excluded (glibc renders them as :60), instants after the last transition of a footer-less file are compared only for 'no local time type', TZ descriptions are compared on the sub-language where glibc is authoritative (rule days well inside the year, times 0-24 h, no RFC 8536 extensions)"])
